@@ -251,8 +251,15 @@ pub fn solve_sys(a: &[f64], b: &[f64]) -> Vec<f64> {
         let mut solutions = Vec::with_capacity(b.len());
         let b = row_to_col_major(b, n);
 
-        if is_positive_definite(a) {
-            let l = cholesky(a);
+        // try the Cholesky route if the matrix looks positive definite, and
+        // fall back to LU if it turns out not to be
+        let l = if is_positive_definite(a) {
+            try_cholesky(a)
+        } else {
+            None
+        };
+
+        if let Some(l) = l {
             for i in 0..nsys {
                 let sol = cholesky_solve(&l, &b[(i * n)..((i + 1) * n)]);
                 assert_eq!(sol.len(), n);
@@ -300,8 +307,15 @@ pub fn solve(a: &[f64], b: &[f64]) -> Vec<f64> {
 
     #[cfg(not(feature = "lapack"))]
     {
-        if is_positive_definite(a) {
-            let l = cholesky(a);
+        // try the Cholesky route if the matrix looks positive definite, and
+        // fall back to LU if it turns out not to be
+        let l = if is_positive_definite(a) {
+            try_cholesky(a)
+        } else {
+            None
+        };
+
+        if let Some(l) = l {
             cholesky_solve(&l, b)
         } else {
             let (lu, piv) = lu(a);
